@@ -1,5 +1,6 @@
 import AbraModel.Drv.Util
 import AbraModel.Drv.I64
+import AbraModel.Drv.GC
 import AbraModel.Drv.Arena
 import AbraModel.Drv.Sort
 import AbraModel.Drv.CallOrder
@@ -9,6 +10,9 @@ import AbraModel.Drv.SrcMap
 import AbraModel.Drv.Sched
 import AbraModel.Drv.PatMatrix
 import AbraModel.Drv.Sem
+import AbraModel.Drv.Arr
+import AbraModel.Drv.F64
+import AbraModel.Drv.Opt
 /- Line-protocol model driver: one request per input line (`<component> <args…>`), one answer per line. -/
 open Abra.Drv
 
@@ -16,6 +20,7 @@ def dispatch (line : String) : String :=
   match words line with
   | [] => "bad-op"
   | "i64" :: rest => handleI64 rest
+  | "gc" :: rest => handleGC rest
   | "arena" :: rest => handleArena rest
   | "sort" :: rest => handleSort rest
   | "callorder" :: rest => handleCallOrder rest
@@ -26,6 +31,9 @@ def dispatch (line : String) : String :=
   | "sched" :: rest => handleSched rest
   | "pm" :: rest => handlePatMatrix rest
   | "sem" :: rest => handleSem rest
+  | "arr" :: rest => handleArr rest
+  | "f64" :: rest => handleF64 rest
+  | "opt" :: rest => handleOpt rest
   | _ => "bad-op"
 
 partial def loop (h : IO.FS.Stream) (out : IO.FS.Stream) : IO Unit := do
